@@ -1353,7 +1353,7 @@ PROPS = {
                     'keys solver-chosen) runs on the real C and Python code. Asserted on every path: a fault that was reached '
                     'surfaces as CmpError (never swallowed); afterwards the contents are the previous ones or the completed change '
                     '(multi-key calls: no invented/lost key), both checkers and the walker accept, two further operations behave like '
-                    'the model, and for C every key object\'s reference count returns to its baseline when the container is dropped.',
+                    'the model, and for C every key object\'s reference count returns to its baseline when the container is dropped.' + ' Round 3: /exc obligations raise the fault as a subclass of ValueError / KeyError / TypeError / IndexError / AttributeError (class solver-chosen) on leaves and the smallest multi-leaf shapes.',
         functions=['_OOBTree.so: BTREE_SEARCH/BUCKET_SEARCH error exits, _BTree_set (incl. rollback of the first leaf), _BTree_get, '
                    '_bucket_set, _bucket_get, BTree_findRangeEnd, BTree_rangeSearch, BTree_maxminKey, Bucket_*, set_i*/TreeSet_i*, update',
                    'BTrees._base: _Tree._set/_del/_search/_findbucket, Bucket._set/_del/_search/_range, keys/minKey/maxKey'],
